@@ -377,7 +377,9 @@ class Unit:
                 continue
 
             def extra(k, r=r):
-                return {'SITEFN': '@SITE@', 'FN': fnname}
+                kind = re.sub(r'^(r\d+_)?(used_)?', '', r.name)
+                kind = re.sub(r'_load$', '', kind)
+                return {'SITEFN': '@SITE@', 'SITEK': '@SITEK:%s@' % kind, 'FN': fnname}
             text, c = rsx.rewrite(text, r.pat, r.sub, extra)
             r.count += c
         # device read sites are numbered in textual order within the function
@@ -387,6 +389,16 @@ class Unit:
             self.sites.append(nm)
             return nm + '()'
         text = re.sub(r'@SITE@', number, text)
+        # sites named by what is read (per function and kind, in textual order): reordering reads of different
+        # locations does not rename them
+        kcount = {}
+        def number_k(m):
+            kind = m.group(1)
+            kcount[kind] = kcount.get(kind, 0) + 1
+            nm = 'SITE_%s_%s_%d' % (fnname, kind, kcount[kind])
+            self.sites.append(nm)
+            return nm + '()'
+        text = re.sub(r'@SITEK:(\w+)@', number_k, text)
         return text
 
     # -------- items ----------
